@@ -37,6 +37,8 @@ R4 = [
   ">= 3 workers at limit 1, an idle dead worker, a saturated dead worker, a saturated live worker, the forced target being the dead saturated one"),
 ]
 STRENGTH = {
+ ("C03",1): "the first run ended in a tool error (the stress phases waited out their socket time-outs on a server that had stopped serving): stress phases now end after 20 s, scenarios end after a failed stress phase, and a violation found before a later stage breaks down is reported",
+ ("C08",1): "C08_NoLostIndex (every worker index is in the rotation, reported to the server, or on its way back in the waker queue), NEG ReportOnlyIfBitSet",
  ("C05",2): "T_C05_WakesForEarliestDeadline (the loop's next poll timeout vs the earliest pending back-off deadline, measured) + corpus with two listeners in back-off",
  ("C06",1): "end-to-end graceful stops that run into a 2 s / 3 s shutdown_timeout on the real clock",
  ("C07",2): "T_C07_QueuedMeansWoken + burst of 80 connections queued at one worker; C07 runs the server flow with back-pressure",
